@@ -25,6 +25,9 @@ func TestProp(t *testing.T) {
 		"sub-before-init", "second-init", "unknown-type", "non-json", "wrong-shape:ignored", "init-rejected",
 		"gate-released-uninterruptible-executor", "tick:before-init", "tick:after-init", "accepted",
 		"hook-refused", "hook-refused:on-live-id", "id-reused-after-hook-refusal",
+		"server-only-type:next", "server-only-type:error", "server-only-type:connection_ack", "server-only-type:data",
+		"server-only-type:complete", "server-only-type:ka", "server-only-type:connection_error",
+		"server-only-type:before-init", "server-only-type:after-init", "server-only-type:id-of-live-operation",
 	)
 	if r.FirstShard() {
 		if msg := acceptorSelfTest(); msg != "" {
